@@ -131,3 +131,10 @@ def memory_step(cap, oc, kinds, a0, a1, a2, x0, x1, x2, dA, t1, t2, sus_at, K=7,
         return "REACHED" if want in seen else ""
     path_done()
     return ""
+
+
+def sim_memory(cfg, cpus=4, ram=40, da=1, db=1, dc=1, ma=None, mb=None, pa=3, pb=3, ta=0, tb=0, want=""):
+    """Memory limits and reported usage in full scheduler+executor simulations."""
+    from vf.harness import sim
+    return sim.run(cfg, [sim.Memory()], cpus=cpus, ram=ram, da=da, db=db, dc=dc, ma=ma, mb=mb,
+                   pa=pa, pb=pb, ta=ta, tb=tb, want=want)
